@@ -23,7 +23,7 @@ fn sm(ev: &Ev, i: usize) -> EvSum {
 }
 #[cfg(not(feature = "verif-models"))]
 fn sm(ev: &Ev, i: usize) -> EvSum {
-    summarize_event(&sm(&ev, i))
+    summarize_event(&ev[i])
 }
 
 fn is_send(e: &EvSum) -> bool {
